@@ -179,6 +179,7 @@ func init() {
 // pathJoinTerm mirrors the pure library model of path.Join on two elements.
 func (e *FuncEnc) pathJoinTerm(a, b string) string {
 	e.useFS()
+	e.D.needSeq()
 	strT := types.Typ[types.String]
 	f := e.D.UF("lib_"+mangle("path.Join")+"_r0", []string{"GSeq"}, "Str")
 	t := sx(f, e.D.SeqLit([]string{e.boxed(a, strT), e.boxed(b, strT)}))
